@@ -144,3 +144,163 @@ Proof.
     assert (TK : firstn (N.to_nat k) zs = zs) by (rewrite <- Hk, Nat2N.id; apply firstn_all).
     rewrite takeN_ok, TK. now apply SC.
 Qed.
+
+(* ==== v2 ============================================================================================== *)
+Definition v2_lb (cd : coldesc) (p : lpage) : bytes :=
+  if cd_maxdef cd =? 0 then [] else hyb_enc (level_width (cd_maxdef cd)) (lp_def p).
+Definition v2_nn (cd : coldesc) (p : lpage) : N := lp_nvals p - count_def (cd_maxdef cd) (page_levels cd p).
+Definition v2_header (cd : coldesc) (p : lpage) : dph2 :=
+  {| d2_nvals := Z.of_N (lp_nvals p); d2_nnulls := Z.of_N (v2_nn cd p); d2_nrows := Z.of_N (lp_nvals p);
+     d2_enc := store_enc (lp_store p); d2_dlen := Z.of_N (lenN (v2_lb cd p)); d2_rlen := 0; d2_iscomp := lp_iscomp p |}.
+
+Section V2Proofs.
+Variable compress : Z -> bytes -> bytes.
+Variable decompress : Z -> N -> bytes -> option bytes.
+Hypothesis codec_rt : forall codec b, decompress codec (lenN b) (compress codec b) = Some b.
+
+Definition v2_body (cd : coldesc) (codec : Z) (p : lpage) : bytes :=
+  if match lp_iscomp p with Some false => false | _ => true end then deflate compress codec (store_bytes cd (lp_store p))
+  else store_bytes cd (lp_store p).
+
+(* what enc_data_page writes for a v2 page, in the terms the reader model is stated in *)
+Lemma enc_v2_shape cd codec p : lp_v2 p = true ->
+  enc_data_page compress cd codec p
+  = ({| ph_usize := Z.of_N (lenN (v2_lb cd p)) + Z.of_N (lenN (store_bytes cd (lp_store p)));
+        ph_csize := Z.of_N (lenN (v2_lb cd p)) + Z.of_N (lenN (v2_body cd codec p)); ph_crc := None;
+        ph_body := PBData2 (v2_header cd p) |}%Z, v2_lb cd p ++ v2_body cd codec p).
+Proof.
+  intros V. unfold enc_data_page. rewrite V. cbn zeta. unfold v2_header, v2_lb, v2_body, v2_nn, zlen.
+  rewrite app_tr_ok. destruct (cd_maxdef cd =? 0); rewrite ?hyb_enc_x_ok; reflexivity.
+Qed.
+
+Lemma plain_enc_num_len t k vs : num_width t = Some k ->
+  Forall (fun v => value_ok t 0 v = true \/ True) vs ->
+  (forall v, In v vs -> exists n, v = VNum n) ->
+  lenN (plain_enc t vs) = k * N.of_nat (length vs).
+Proof.
+  intros Hk _ HV. unfold plain_enc.
+  assert (NB : t <> BOOLEAN) by (intros ->; discriminate Hk).
+  destruct t; try contradiction; try discriminate Hk; rewrite concat_tr_ok;
+    (induction vs as [|v vs IH]; [cbn; lia|];
+     cbn [map concat length]; rewrite lenN_app, IH by (intros x Hx; apply HV; now right);
+     destruct (HV v (or_introl eq_refl)) as (n & ->); cbn [plain_enc1]; rewrite Hk, lenN_ok, le_enc_length; lia).
+Qed.
+
+Lemma takeN_all {A} (b : list A) : takeN (lenN b) b = b.
+Proof. rewrite <- (app_nil_r b) at 2. apply takeN_app_exact. Qed.
+
+Theorem rd_page_v2_spec inplace cd dict codec p cs :
+  lp_v2 p = true -> page_wf cd p -> store_ok_for_reader cd (lp_store p) -> page_cells cd dict p = Some cs ->
+  (* the in-place PLAIN paths are only taken for fixed-width numeric columns *)
+  (inplace = true -> match lp_store p with SPlain _ => num_width (cd_type cd) <> None | _ => True end) ->
+  (* a DELTA page with NULLs is refused by the reader (AssertionError) *)
+  (match lp_store p with SDelta _ _ _ => v2_nn cd p = 0 | _ => True end) ->
+  rd_page_v2 decompress inplace cd dict codec (v2_header cd p)
+             (lenN (v2_lb cd p) + lenN (store_bytes cd (lp_store p)))
+             (lenN (v2_lb cd p) + lenN (v2_body cd codec p))
+             (v2_lb cd p ++ v2_body cd codec p)
+  = ROk cs.
+Proof.
+  intros V2 [LW SW] RO PC INP DNN. unfold page_cells in PC.
+  set (lv := page_levels cd p) in *. set (k := count_def (cd_maxdef cd) lv) in *.
+  destruct (store_values cd dict k (lp_store p)) as [vs|] eqn:SV; [|discriminate].
+  assert (LEN : N.of_nat (length lv) = lp_nvals p).
+  { unfold lv, page_levels. destruct LW as [H0|(H1 & Hr & Hn & Hl)].
+    - rewrite H0. cbn [N.eqb]. rewrite repN_ok, app_nil_r, repeat_length. apply N2Nat.id.
+    - rewrite H1. cbn [N.eqb Pos.eqb]. rewrite takeN_ok, runs_vals_ok, firstn_length_le by lia. apply N2Nat.id. }
+  pose proof (count_def_le (cd_maxdef cd) lv) as CLE. rewrite LEN in CLE. fold k in CLE.
+  assert (NN : v2_nn cd p = lp_nvals p - k) by reflexivity.
+  unfold rd_page_v2. cbn [v2_header d2_enc d2_nvals d2_nnulls d2_dlen d2_rlen d2_iscomp].
+  assert (EOK : negb ((store_enc (lp_store p) =? E_PLAIN_DICT) || (store_enc (lp_store p) =? E_RLE_DICT) ||
+                      (store_enc (lp_store p) =? E_RLE) || (store_enc (lp_store p) =? E_PLAIN) ||
+                      (store_enc (lp_store p) =? E_DELTA))%Z = false).
+  { destruct (lp_store p) as [pv|e w runs|runs|bs mpb zs|e b]; cbn [store_wf] in SW; try contradiction; try reflexivity.
+    destruct SW as ([->| ->] & _); reflexivity. }
+  rewrite EOK. rewrite !z2n_of_N. cbn [rbind]. change (z2n _ 0%Z) with (@ROk N 0). cbn [rbind].
+  rewrite NN. replace (lp_nvals p - (lp_nvals p - k)) with k by lia.
+  rewrite !N.sub_0_r, ?N.add_0_r.
+  replace (lenN (v2_lb cd p) + lenN (v2_body cd codec p) - lenN (v2_lb cd p)) with (lenN (v2_body cd codec p)) by lia.
+  replace (lenN (v2_lb cd p) + lenN (store_bytes cd (lp_store p)) - lenN (v2_lb cd p)) with (lenN (store_bytes cd (lp_store p))) by lia.
+  rewrite takeN_app_exact, dropN_app_exact, takeN_all.
+  (* levels *)
+  set (lvopt := if negb (cd_maxdef cd =? 0) && negb (lp_nvals p - k =? 0) then Some lv else None).
+  assert (LV : (if negb (cd_maxdef cd =? 0) && negb (lp_nvals p - k =? 0)
+                then match hyb_dec false (N.size (cd_maxdef cd)) (lp_nvals p) (v2_lb cd p) with
+                     | Some (l, _) => ROk (Some l)
+                     | None => RBad "level reader ran out of data"%string
+                     end
+                else ROk None) = ROk lvopt).
+  { unfold lvopt, lv, page_levels, v2_lb. destruct LW as [H0|(H1 & Hr & Hn & Hl)].
+    - rewrite H0. reflexivity.
+    - rewrite H1. cbn [N.eqb Pos.eqb negb andb]. destruct (lp_nvals p - k =? 0); [reflexivity|].
+      change (N.size 1) with 1. change (level_width 1) with 1.
+      destruct (hyb_rt false 1 (lp_nvals p) (lp_def p) [] Hr Hn) as (r & E). rewrite app_nil_r in E. rewrite E.
+      now rewrite takeN_ok, runs_vals_ok. }
+  rewrite LV. cbn [rbind].
+  assert (SC : forall vals, cells_of (cd_maxdef cd) lv vals [] = Some cs -> scatter2 (cd_maxdef cd) lvopt vals = ROk cs).
+  { intros vals HC. unfold lvopt, scatter2.
+    assert (FULL : lp_nvals p - k = 0 -> ROk (map Some vals) = ROk cs).
+    { intros Z. f_equal. symmetry. eapply (cells_of_full (cd_maxdef cd) lv vals [] cs); [|exact HC]. fold k. lia. }
+    destruct (cd_maxdef cd =? 0) eqn:M0; cbn [negb andb].
+    - apply FULL. apply N.eqb_eq in M0. unfold k, lv, page_levels. rewrite M0. cbn [N.eqb].
+      rewrite repN_ok, app_nil_r, count_def_repeat, N2Nat.id. lia.
+    - destruct (lp_nvals p - k =? 0) eqn:Z0; cbn [negb]; [apply FULL; now apply N.eqb_eq|]. now rewrite HC. }
+  (* decompression *)
+  assert (RAW : forall (A : Type) (K : bytes -> rs A),
+            rbind (if match lp_iscomp p with Some false => false | _ => true end && negb (codec =? 0)%Z
+                   then of_opt "decompression failed"%string (decompress codec (lenN (store_bytes cd (lp_store p))) (v2_body cd codec p))
+                   else ROk (v2_body cd codec p)) K = K (store_bytes cd (lp_store p))).
+  { intros A K. unfold v2_body, deflate.
+    destruct (lp_iscomp p) as [[|]|]; destruct (codec =? 0)%Z; cbn [andb negb]; rewrite ?codec_rt; reflexivity. }
+  destruct (lp_store p) as [pv|e w runs|runs|bs mpb zs|e b] eqn:ST; cbn [store_wf] in SW; try contradiction;
+    cbn [store_enc store_bytes store_values] in *.
+  - (* PLAIN *)
+    destruct SW as [Hv Hk]. injection SV as <-. cbn [Z.eqb E_PLAIN].
+    pose proof (plain_roundtrip (cd_type cd) (cd_tlen cd) pv [] Hv) as PR. rewrite Hk, app_nil_r in PR.
+    destruct (inplace && (lp_nvals p - k =? 0)) eqn:IP.
+    + apply andb_true_iff in IP. destruct IP as [-> Z0]. apply N.eqb_eq in Z0.
+      rewrite RAW. specialize (INP eq_refl). cbn beta iota in INP.
+      destruct (num_width (cd_type cd)) as [kw|] eqn:NW; [|now contradiction INP].
+      assert (LB : lenN (plain_enc (cd_type cd) pv) = kw * k).
+      { rewrite <- Hk. apply (plain_enc_num_len (cd_type cd) kw pv NW).
+        - apply Forall_forall. intros; now right.
+        - intros v Hv'. rewrite Forall_forall in Hv. destruct (value_ok_num _ _ _ _ NW (Hv v Hv')) as (n0 & -> & _). eauto. }
+      rewrite LB, N.eqb_refl, PR.
+      f_equal. symmetry. eapply (cells_of_full (cd_maxdef cd) lv pv [] cs); [fold k; lia|exact PC].
+    + rewrite RAW, PR. now apply SC.
+  - (* dictionary *)
+    destruct SW as (He & Hw & Hr & Hk). destruct dict as [d|]; [|discriminate].
+    rewrite takeN_ok, runs_vals_ok in SV.
+    assert (E1 : ((e =? E_PLAIN) = false)%Z) by (destruct He; subst; reflexivity).
+    assert (E2 : ((e =? E_PLAIN_DICT) || (e =? E_RLE_DICT) = true)%Z) by (destruct He; subst; reflexivity).
+    assert (E3 : ((e =? E_RLE) = false)%Z) by (destruct He; subst; reflexivity).
+    rewrite E1, E3, E2. rewrite RAW. rewrite hyb_enc_x_ok.
+    destruct (hyb_rt false w k runs [] Hr Hk) as (r & E). rewrite app_nil_r in E.
+    destruct (k =? 0) eqn:K0.
+    + apply N.eqb_eq in K0. rewrite K0 in SV. cbn [N.to_nat firstn lookup_all rev_append] in SV. injection SV as <-.
+      cbn [rbind lookup_all rev_append of_opt]. now apply SC.
+    + destruct (w =? 0) eqn:W0.
+      * apply N.eqb_eq in W0. subst w. cbn [rbind]. rewrite repN_ok, app_nil_r.
+        rewrite (firstn_zeros (N.to_nat k) (runs_total runs)) in SV by (try (apply runs_total_lt; exact Hr); lia).
+        rewrite SV. cbn [of_opt rbind]. now apply SC.
+      * rewrite E. cbn [rbind]. rewrite SV. cbn [of_opt rbind]. now apply SC.
+  - (* RLE booleans *)
+    destruct SW as (Ht & Hr & Hk & Hl). injection SV as <-. cbn [Z.eqb E_PLAIN E_RLE E_PLAIN_DICT E_RLE_DICT orb].
+    rewrite RAW. rewrite hyb_enc_len_x_ok. unfold hyb_enc_len. rewrite <- lenN_ok, dropN_le_enc4.
+    destruct (hyb_rt false 1 k runs [] Hr Hk) as (r & E). rewrite app_nil_r in E. rewrite E.
+    rewrite takeN_ok, runs_vals_ok in PC. now apply SC.
+  - (* DELTA_BINARY_PACKED *)
+    destruct SW as (bits & q & mp & Hb & -> & -> & Hq & Hmp & Hr & Hk).
+    rewrite Hb in *. injection SV as <-.
+    cbn [Z.eqb Pos.eqb E_PLAIN E_RLE E_PLAIN_DICT E_RLE_DICT E_DELTA orb].
+    rewrite NN in DNN. rewrite DNN. cbn [N.eqb negb].
+    rewrite RAW.
+    assert (B1 : 1 <= bits) by (destruct (cd_type cd); cbn in Hb; try discriminate; injection Hb as <-; lia).
+    pose proof (DeltaProofs.delta_roundtrip bits q mp zs [] B1 Hq Hmp Hr) as DR. rewrite app_nil_r in DR.
+    rewrite DR.
+    assert (TK : takeN (lp_nvals p) zs = zs).
+    { rewrite takeN_ok. replace (N.to_nat (lp_nvals p)) with (length zs) by lia. apply firstn_all. }
+    rewrite TK. f_equal. rewrite <- map_map. symmetry.
+    eapply (cells_of_full (cd_maxdef cd) lv _ [] cs); [fold k; lia|exact PC].
+Qed.
+End V2Proofs.
